@@ -62,10 +62,36 @@ Print Assumptions C07d_rename.
 Theorem C07_refines_flat (root : list cdef) (top : path) (r : list fsym * list eqn) :
   plain_lib root ->
   ~ (exists c lex Sp b, lookup (lex_scope root []) top = Some (c, lex, Sp, b) /\ alias c) ->
-  flatten root top = Ok r ->
+  flatten root false top = Ok r ->
   Forall clean (fst r) /\ PV.Lib.Inst.inst root top = Some (map var_of (fst r), snd r).
 Proof. exact (refines_flat root top r). Qed.
 Print Assumptions C07_refines_flat.
+
+(* `flatten root false` is the model WITHOUT pymoca's definition-order rule (every nested class counts as
+   instantiated before its users); the real code is `flatten root true` (Model/C07_flatten.v, ilookup).  For
+   the real model the theorem holds under the hypothesis that carves out the recorded finding
+   nested-class-defined-after-user-resolved-lexically: the order rule does not change the result. *)
+Theorem C07_refines_flat_real (root : list cdef) (top : path) (r : list fsym * list eqn) :
+  plain_lib root ->
+  ~ (exists c lex Sp b, lookup (lex_scope root []) top = Some (c, lex, Sp, b) /\ alias c) ->
+  flatten root true top = flatten root false top ->
+  flatten root true top = Ok r ->
+  Forall clean (fst r) /\ PV.Lib.Inst.inst root top = Some (map var_of (fst r), snd r).
+Proof. intros Hp Ht E H. rewrite E in H. exact (refines_flat root top r Hp Ht H). Qed.
+Print Assumptions C07_refines_flat_real.
+
+(* the recorded finding: model Part Real pr; end Part;  model Base model Part Real pb; end Part; end Base;
+   model M  model Inner Helper h; end Inner;  model Helper Part p; end Helper;  extends Base;  Inner i1; end M;
+   Helper is defined AFTER its user Inner, so it is instantiated in its lexical scope and `Part` is the
+   root-level class (variable i1.h.p.pr); the specification — and the code when Helper comes first — gives
+   the inherited Base.Part (i1.h.p.pb) *)
+Definition late_lib : list cdef := [(CDef 40%positive 17%positive [] [] [(mkSym 41%positive [1%positive] [] [] [])] []); (CDef 42%positive 17%positive [(CDef 40%positive 17%positive [] [] [(mkSym 43%positive [1%positive] [] [] [])] [])] [] [] []); (CDef 44%positive 17%positive [(CDef 45%positive 17%positive [] [] [(mkSym 46%positive [47%positive] [] [] [])] []); (CDef 47%positive 17%positive [] [] [(mkSym 48%positive [40%positive] [] [] [])] [])] [([42%positive], [])] [(mkSym 49%positive [45%positive] [] [] [])] [])].
+Theorem C07_refuted_definition_order :
+  map f_name (match flatten late_lib true [44%positive] with Ok r => fst r | Err _ => [] end) = [[49; 46; 48; 41]%positive] /\
+  map f_name (match flatten late_lib false [44%positive] with Ok r => fst r | Err _ => [] end) = [[49; 46; 48; 43]%positive] /\
+  option_map (fun r => map v_name (fst r)) (PV.Lib.Inst.inst late_lib [44%positive]) = Some [[49; 46; 48; 43]%positive].
+Proof. vm_compute. repeat split; reflexivity. Qed.
+Print Assumptions C07_refuted_definition_order.
 
 (* the hypotheses are satisfiable by a non-trivial library: type I = Integer; model A input Real x; output Real y[2]; discrete I k; equation
    y[1] = x; end A;  model M  model N A c; end N;  A a; N b; input Real u;  equation a.x = u; b.c.x = a.y[1]; end M; *)
@@ -79,7 +105,7 @@ Definition plain_ex : list cdef :=
 Example C07_refines_flat_example :
   plain_lib plain_ex /\
   ~ (exists c lex Sp b, lookup (lex_scope plain_ex []) [43%positive] = Some (c, lex, Sp, b) /\ alias c) /\
-  exists r, flatten plain_ex [43%positive] = Ok r /\
+  exists r, flatten plain_ex true [43%positive] = Ok r /\ flatten plain_ex false [43%positive] = Ok r /\
     map (fun s => (f_name s, f_type s)) (fst r) =
       [([46; 41], [iReal]); ([46; 42], [iReal]); ([46; 51], [iInteger]); ([47; 45; 41], [iReal]);
        ([47; 45; 42], [iReal]); ([47; 45; 51], [iInteger]); ([48], [iReal])]%positive /\ length (snd r) = 4%nat.
@@ -89,7 +115,7 @@ Proof.
     repeat (constructor; try (left; constructor); try (unfold kModel, kBuiltin, kType; discriminate);
             try (simpl; intuition discriminate)).
   - intros [c [lex [Sp [b [L A]]]]]. vm_compute in L. inversion L; subst. inversion A.
-  - eexists. split; [vm_compute; reflexivity | split; reflexivity].
+  - eexists. split; [vm_compute; reflexivity | split; [vm_compute; reflexivity | split; reflexivity]].
 Qed.
 Print Assumptions C07_refines_flat_example.
 
